@@ -54,4 +54,6 @@ d1ef5b1 C16
 28b6ba2 C19
 aff562d C11
 4ca5041 C06
+cc5a9fa C14 C08
+5573dd6 C06 C05
 LIST
